@@ -678,6 +678,10 @@ def cells_of(writes):
     return m
 
 
+from common.py2lean_specs import with_translation  # noqa: E402
+
+
+@with_translation
 class C06(Property):
     id = "C06"
     title = "draw() leaves the picture in place and the cursor on the line below it"
